@@ -486,7 +486,7 @@ impl DisconnectReason {
     t += C.lifted('crates/anemo/src/network/request_handler.rs', 'impl InboundRequestHandler :: fn start', 'InboundRequestHandler::start::tail',
                   ['C04', 'C05', 'C09'], anchor='let close_reason = loop', kind='tail', name='inbound_request_handler_start_tail', is_async=True,
                   params='active_peers: &mut ActivePeers, connection: &Connection, close_reason: ConnectionError, inflight_requests: &mut JoinSet<()>',
-                  inserts=[('X6', 'inflight_requests.shutdown().await;', '''assert(active_peers.0.view() =~~= rm_sid_spec(old(active_peers).0.view(), connection.peer, connection.sid, reason_of(close_reason))); // @OBL InboundRequestHandler::start::tail::reports_loss_before_teardown [C09] the lost connection is removed and announced BEFORE the handler waits for its in-flight request tasks to be torn down (which can take arbitrarily long): the loss is reported without delay
+                  inserts=[('X6', 'inflight_requests.shutdown().await;', '''assert(active_peers.0.view() =~~= rm_sid_spec(old(active_peers).0.view(), connection.peer, connection.sid, reason_of(close_reason))); // @OBL InboundRequestHandler::start::tail::reports_loss_before_teardown [C09,C04,C05] the lost connection is removed and announced BEFORE the handler waits for its in-flight request tasks to be torn down (which can take arbitrarily long): the loss is reported without delay
         ''', 'before', True)],
                   rewrites=[('X10', 'self.active_peers', 'active_peers', None), dict(rule='X10', pattern='self.connection', repl='connection', optional=True),
                             dict(rule='X5', pattern='crate::types::DisconnectReason', repl='DisconnectReason', optional=True)],
